@@ -28,7 +28,7 @@ r("C07", E1, "runtime monitor: reference position set vs the six aggregate pools
 r("C08", E1, "runtime monitor: shadow token ledger fed from operation reports vs accounted holdings",
   "Exploration: conservation ledger per token after every operation, funding residual tracked with reported shortfalls; clock advanced between operations, funding / borrowing configs varied.", TB_MODEL)
 r("C09", "model-mon + store-mon", "runtime monitor: BigInt liquidation-threshold recomputation (model) + real liquidate / ADL instructions in hostsvm",
-  "Exploration at two levels: model level (thresholds recomputed exactly, cases placed at threshold±1 by bisection) and instruction level (liquidation closes the whole position; simulated liquidation right after an increase is rejected; ADL factor before/after recomputed from accounts).", TB_MODEL + "; " + TB_SVM)
+  "Exploration at two levels: model level (thresholds recomputed exactly, cases placed at threshold±1 by bisection) and instruction level (liquidation closes the whole position; simulated liquidation right after an increase or a non-closing decrease is rejected; every successful liquidation was due on the pre-state brought up to date by update_fees_state (Position::as_position verdict under the liquidation thresholds at the event prices); liquidation / validation thresholds and min collateral value varied; ADL factor before/after recomputed from accounts).", TB_MODEL + "; " + TB_SVM)
 r("C10", E1, "runtime monitor: open-then-close round trips at unchanged prices",
   "Exploration over sizes, leverages, collateral tokens, sides, states and impact/fee settings; total received <= collateral in + one base unit per operation.", TB_MODEL)
 r("C11", E1, "runtime monitor: pnl monotonicity / cap / proportional share on cloned states",
@@ -54,9 +54,9 @@ r("C20", E2, "runtime monitor: keeper permission policy reference vs real update
 r("C21", E2, "runtime monitor: overlay reference model vs the real RevertibleMarket buffer (hooked constructor)",
   "Exploration over begin/read/write/commit/abandon sequences across all pool kinds, clocks and other state.", TB_SVM)
 r("C22", E2, "runtime monitor: solvency invariant after every successful instruction of random multi-market histories in hostsvm",
-  "Exploration: 4 markets sharing two vaults (one single-token market) and a GLV over three of them; deposits, withdrawals, shifts, swap/position orders with swap paths and foreign receivers, GLV deposits / withdrawals / shifts, liquidations, driven ADL (about 120 successful per quick run), fee claims, keeper transfers; invariant checked at every quiescent point (after each successful transaction); minimum observation counts per operation class.", TB_SVM)
+  "Exploration: 4 markets sharing two vaults (one single-token market) and a GLV over three of them; deposits, withdrawals (incl. one-sided swap paths), shifts, swap/position orders with swap paths, decrease swap types and foreign receivers, GLV deposits / withdrawals / shifts, liquidations, driven ADL (about 120 successful per quick run), fee claims, keeper transfers; invariant checked at every quiescent point (after each successful transaction); minimum observation counts per operation class.", TB_SVM)
 r("C23", E2, "runtime monitor: action lifecycle automaton + escrow/lamport conservation over random histories in hostsvm",
-  "Exploration: create/execute/close by owner, keeper, stranger for deposits, withdrawals, shifts, orders (incl. a receiver other than the owner) and GLV deposits / withdrawals / shifts; throwing and non-throwing executions, stale prices, re-execution of terminal actions, variable execution fees; automaton, soft-failure and close rules checked after every transaction.", TB_SVM)
+  "Exploration: create/execute/close by owner, keeper, stranger for deposits, withdrawals, shifts, orders (incl. a receiver other than the owner, who also tries to close them; decrease swap types varied) and GLV deposits / withdrawals / shifts; throwing and non-throwing executions, stale prices, re-execution of terminal actions, variable execution fees; automaton, soft-failure and close rules checked after every transaction.", TB_SVM)
 r("C24", E2, "runtime monitor: independent re-derivation of oracle acceptance + cleared-after-use invariant",
   "Exploration over oracle settings, feed timestamps / spreads, clock moves, token subsets (real set_prices_from_price_feed), tokens with a second (Pyth) feed and randomly switched expected provider offered real PriceUpdateV2 accounts or custom feeds, and the exchange workload for the cleared-after-use rule.", TB_SVM)
 r("C25", E2, "runtime monitor: custom price feed monotonicity over random update sequences (real instruction)",
